@@ -30,7 +30,7 @@ def _env(ctx, tree, rnd):
 
 def _cases(tier):
     out = []
-    sizes = [(1, 1), (2, 1), (2, 2), (3, 1)] + ([(3, 2), (4, 1)] if tier == "thorough" else [])
+    sizes = [(1, 1), (2, 1), (2, 2), (3, 1)] + ([(3, 2), (4, 1), (3, 3), (4, 2), (5, 1)] if tier == "thorough" else [])
     for nb, nq in sizes:
         for shuffle in (True, False):
             for rd in (True, False):
@@ -177,7 +177,7 @@ BOUNDS = {"quick": {"index bookkeeping": "build points n_b <= 3, query points n_
                     "membership matrix, every report order of the tree, every shuffle permutation, "
                     "shuffle on/off, return_distance on/off, both tree classes, both metrics",
                     "radius": "every unit spelling of the table x both metrics, any positive length"},
-          "thorough": {"index bookkeeping": "adds (3,2) and (4,1)"}}
+          "thorough": {"index bookkeeping": "adds (3,2), (4,1), (3,3), (4,2), (5,1)"}}
 OUTSIDE = ["sklearn's BallTree/KDTree themselves (their documented query_radius contract is the stub)",
            "the metric embedding lat/lon -> 3-D cartesian / radians (trigonometric; needs the angle algebra of DESIGN 2.3, not built)",
            "float parsing in split_units", "NumPy's RNG", "leaf_size (passed through to the tree)"]
